@@ -25,7 +25,7 @@ from sim.kernel import Sim, make_policy, StepCap, Deadlock
 from sim.executors import (SimPoolBase, SimThreadPool, SimProcessPool,
                            sim_as_completed, sim_wait)
 from sim.runner import new_result, scratch_root
-from sim.seams import patched, import_typhon, fresh_dir
+from sim.seams import patched, import_typhon, fresh_dir, ProcessState
 from sim import digest_of
 
 PROPERTY_ID = "C20"
@@ -80,6 +80,7 @@ def setup():
     import_typhon()
     import typhon.topography as tmod
     _T.update(tmod=tmod, SRTM30=tmod.SRTM30, tiles={t[0]: t for t in tmod.SRTM30._tiles})
+    _T["state"] = ProcessState(tmod, tmod.SRTM30)
 
 
 def tile_origin(name):
@@ -300,6 +301,7 @@ def expected_tiles(lat_min, lon_min, lat_max, lon_max):
 # ------------------------------------------------------------------- the run
 def run_one(tape, only=None):
     res = new_result()
+    _T["state"].restore()       # every run starts from a fresh interpreter state
     w = gen_workload(tape)
     tmod, SRTM30 = _T["tmod"], _T["SRTM30"]
     root = fresh_dir(scratch_root(), "c20")
